@@ -316,7 +316,7 @@ def runModel (hd : Header) (calls : List (PCall × Twin)) : List String :=
 def handleModel (line : String) : String :=
   -- liveness probes: the model (`ffi_param_live`: a non-null value_ptr is dereferenced when the gate is evaluated) says
   -- that the C interface and the reference rebuilt with the current values as direct parameters agree
-  if line.startsWith "live " then "same" else
+  if line.startsWith "live " || line.startsWith "live-export " then "same" else
   match parseCase line with
   | none => "bad-request"
   | some (hd, calls) => " ; ".intercalate (runModel hd calls)
@@ -518,6 +518,8 @@ def handleSpec (line : String) : String :=
   | [req, ans] =>
     if req.startsWith "live " then
       (if ans.trimAscii.toString = "same" then "ok" else s!"fail ffi-param-not-live {ans.take 160}") else
+    if req.startsWith "live-export " then
+      (if ans.trimAscii.toString = "same" then "ok" else s!"fail ffi-export-differs-from-rust {ans.take 200}") else
     match parseCase req with
     | none => "fail bad-request"
     | some (hd, calls) => runSpec hd calls ((ans.trimAscii.toString.splitOn " ; ").map parseImpl)
